@@ -508,7 +508,7 @@ PROP = "X02"
 
 BAT_SYS = [S(-4, 4), S(-2, 2), S(-4, 2)]
 PV_SYS = [S(-4, 0), S(-2, 0)]
-BASE = dict(NA=2, G=4, Prio=[1, 2], MaxAge=1, MaxClock=2, XG=0, Fixed=True, NInv=NI, MaxReqs=24, Unit=1, Tol=0)
+BASE = dict(NA=2, G=4, Prio=[1, 2], MaxAge=1, MaxClock=2, XG=0, Fixed=True, NInv=NI, MaxReqs=24, MaxBack=24, Unit=1, Tol=0)
 ALPHA = dict(
     bat=dict(SysAlpha=BAT_SYS, RegAlpha=[Q(1, 3), Q(1, -3), Q(2, NONE, -1, 2), Q(2, 1, -2, 4)], OpAlpha=[Q(1, -1), Q(1, 2), Q(2, NONE, 0, 1)]),
     pv=dict(SysAlpha=PV_SYS, RegAlpha=[Q(1, -3), Q(1, -1), Q(2, NONE, -2, 0), Q(2, -4)], OpAlpha=[Q(1, -1), Q(1, 1), Q(2, NONE, -1, 0)]),
